@@ -3,6 +3,7 @@ CONSTANTS
   RegisterBeforeInit = FALSE
   Literal = {}
   ReleaseOnRefusal = TRUE
+  OwnAtTag = TRUE
   Streaming = {}
 INIT Init
 NEXT Next
